@@ -6,16 +6,16 @@ U = ["lib/crc16.c"]
 HARNESSES = [
     dict(name="crc.exact.safe", src="C17/crc.c", entry="harness_exact", defines=["MAXLEN=4"], mode="safety", unwind=9, units=U, timeout=300,
          bounds="buffers of length 0..4 in an object of exactly that size, all initial states, CBMC pointer checks on"),
-    dict(name="crc.big32768", src="C17/crc.c", entry="harness_big", defines=["BIG=32768", "CUTB=1000"], unwind=3, unwindset={"lha_crc16_buf.0": 32775}, units=U, timeout=900, mem_gb=8, object_bits=8,
+    dict(name="crc.big32768", src="C17/crc.c", entry="harness_big", defines=["BIG=32768", "CUTB=1000"], unwind=32775, units=U, timeout=900, mem_gb=8, object_bits=8,
          bounds="CONCRETE path: 32768 zero bytes in one call vs two calls (31768 + 1000 bytes)"),
-    dict(name="crc.big65536", src="C17/crc.c", entry="harness_big", defines=["BIG=65536", "CUTB=1000"], unwind=3, unwindset={"lha_crc16_buf.0": 65540}, units=U, timeout=1800, mem_gb=8, object_bits=8, tier="thorough",
+    dict(name="crc.big65536", src="C17/crc.c", entry="harness_big", defines=["BIG=65536", "CUTB=1000"], unwind=65540, units=U, timeout=1800, mem_gb=8, object_bits=8, tier="thorough",
          bounds="CONCRETE path: 65536 zero bytes in one call vs two calls"),
     dict(name="crc.sweep160", src="C17/crc.c", entry="harness_sweep", defines=["SWEEP=160"], unwind=170, units=U, timeout=900, mem_gb=8,
          bounds="CONCRETE paths: every length 0..160 at start alignments 0..3, zero data, start value 0x1234, against one-byte steps"),
     dict(name="crc.sweep520", src="C17/crc.c", entry="harness_sweep", defines=["SWEEP=520"], unwind=530, units=U, timeout=3000, mem_gb=8, tier="thorough",
          bounds="CONCRETE paths: every length 0..520 at start alignments 0..3"),
     dict(name="crc.null", src="C17/crc.c", entry="harness_null", unwind=9, units=U, timeout=120, bounds="all states, empty piece given as (NULL, 0) between two 1-byte pieces"),
-    dict(name="crc.big", src="C17/crc.c", entry="harness_big", unwind=3, unwindset={"lha_crc16_buf.0": 65540}, units=U, timeout=900, mem_gb=8, object_bits=8, 
+    dict(name="crc.big", src="C17/crc.c", entry="harness_big", unwind=65540, units=U, timeout=900, mem_gb=8, object_bits=8, 
          bounds="CONCRETE path: 65537 zero bytes, start value 0x1234, one call vs two calls (65000 + 537 bytes)",
          claim="per-call lengths above 16 bits are handled (concrete path, complements the quantified harnesses)"),
     dict(name="crc.step", src="C17/crc.c", entry="harness_step", unwind=9, units=U, timeout=120,
